@@ -103,3 +103,27 @@ pub fn rng_seen() -> RngSeen {
 pub fn g1_hex(p: &(BigUint, BigUint)) -> String {
     format!("({},{})", hex::encode(r9::b32(&p.0)), hex::encode(r9::b32(&p.1)))
 }
+
+/// Scalars with zero 64-bit limbs in every pattern (bit i of `mask` set = limb i forced to zero), the other limbs
+/// random; reduced into [1, order-1]. Word-skipping "optimisations" of multiplication/exponentiation loops fail on these.
+pub fn sparse_scalar(p: &mut Prng, mask: u64) -> BigUint {
+    let order = &r9::params().n;
+    let mut l = p.limbs();
+    for i in 0..4 {
+        if mask >> i & 1 == 1 {
+            l[i] = 0;
+        } else if l[i] == 0 {
+            l[i] = 1;
+        }
+    }
+    let mut v = BigUint::from(0u32);
+    for i in (0..4).rev() {
+        v = (v << 64) + l[i];
+    }
+    let v = v % order;
+    if v == BigUint::from(0u32) {
+        BigUint::from(1u32) << 64
+    } else {
+        v
+    }
+}
